@@ -11,7 +11,8 @@ CONSTANTS GConfigs,                         \* set of cfg records (compiled conf
           GReqsOf(_),                       \* cfg -> Pairing Requests: set of <<io, oob, auth, maxkey, idist, rdist>>
           GPdus,                            \* other PDUs: set of <<opcode, lenclass, label>>
           GFinds,                           \* find_key probes: subset of 0..3
-          GEnc,                             \* BOOLEAN: encryption changes are inputs (else only the probes appended by the check)
+          GEnc,                             \* BOOLEAN: encryption changes are inputs in every state; FALSE: only during key
+                                            \*   distribution (items pending, or encryption on), where they are always inputs
           GDepthOf(_)                       \* cfg -> maximal number of inputs per behaviour
 VARIABLE hist
 gvars == <<vars, hist>>
@@ -46,8 +47,10 @@ GNext ==
              Pdu(p[1], p[2], p[3], o, alg = "numeric_comparison") /\ Do(<<"pdu", p[1], p[2], p[3]>>)
        \/ \E o \in Outs : Poll(o) /\ Do(<<"poll">>)
        \/ \E b \in BOOLEAN : cfg.in = 1 /\ cfg.sync = -1 /\ User(b) /\ Do(<<"user", B(b)>>)
-       \/ \E b \in BOOLEAN : GEnc /\ b # enc /\ Enc(b) /\ Do(<<"enc", B(b)>>)
-       \/ \E w \in GFinds : Find(w, FALSE, "none", FALSE) /\ Do(<<"find", w>>)
+       \* C34 "all interleavings of SMP traffic, encryption state changes and output polling": while anything is left to
+       \* distribute the link layer may switch encryption on / off between any two inputs (polls in particular)
+       \/ \E b \in BOOLEAN : (GEnc \/ budget # {} \/ enc) /\ b # enc /\ Enc(b) /\ Do(<<"enc", B(b)>>)
+       \/ \E w \in GFinds : Find(w, FALSE, "none", -1, FALSE) /\ Do(<<"find", w>>)
 
 GSpec == GInit /\ [][GNext]_gvars
 
